@@ -13,6 +13,11 @@ import Mahotas.Proofs.C10Cw
 import Mahotas.Proofs.C10Line
 import Mahotas.Proofs.C10Surf
 import Mahotas.Proofs.Modes
+import Mahotas.Proofs.C10Labeled
+import Mahotas.Proofs.C10Flood
+import Mahotas.Proofs.C10Feat
+import Mahotas.Proofs.C10Conv
+import Mahotas.Proofs.C10Alloc
 open Mahotas Mahotas.C10
 
 /-! ## general index arithmetic -/
@@ -911,3 +916,48 @@ theorem C10_mode_codes_agree (m : Mahotas.Mode) :
     (Mahotas.Generated.pyModes.lookup m.name = some m.code ∧ Mahotas.Generated.cppModes.lookup m.name = some m.code) ∧
     Mahotas.Generated.pyModes.length = 6 ∧ Mahotas.Generated.cppModes.length = 6 :=
   ⟨Mahotas.mode_codes_agree m, Mahotas.mode_tables_complete.1, Mahotas.mode_tables_complete.2.1⟩
+
+
+/-! ## Round 4 — Labeled: `_labeled.cpp` (label union-find, borders, slic, is_same_labeling), `_center_of_mass` label path, `_bbox` labeled n-D path -/
+section Round4Labeled
+open Mahotas.C10Labeled
+-- (theorems of this package go between this line and the `end`)
+
+end Round4Labeled
+-- ---------------------------------------------------------------------------------------------------------
+
+
+/-! ## Round 4 — Flood: `_morph.cpp` flood/queue kernels (close_holes, regmin_max, locmin_max, distance_multi position_queue, subm, disk_2d, majority_filter) and the `_thin` full pass -/
+section Round4Flood
+open Mahotas.C10Flood
+-- (theorems of this package go between this line and the `end`)
+
+end Round4Flood
+-- ---------------------------------------------------------------------------------------------------------
+
+
+/-! ## Round 4 — Feat: feature kernels (`_zernike` znl, SURF `compute_dominant_angle`, `_texture`, `_convex` entry point, `_histogram` otsu, `_interpolate` remaining pieces) -/
+section Round4Feat
+open Mahotas.C10Feat
+-- (theorems of this package go between this line and the `end`)
+
+end Round4Feat
+-- ---------------------------------------------------------------------------------------------------------
+
+
+/-! ## Round 4 — Conv: `_convolve.cpp` (convolve, rank_filter, mean_filter, template_match, daubechies coefficient tables)  -/
+section Round4Conv
+open Mahotas.C10Conv
+-- (theorems of this package go between this line and the `end`)
+
+end Round4Conv
+-- ---------------------------------------------------------------------------------------------------------
+
+
+/-! ## Round 4 — Alloc: result buffers: write sets of the kernels whose result is allocated uninitialised -/
+section Round4Alloc
+open Mahotas.C10Alloc
+-- (theorems of this package go between this line and the `end`)
+
+end Round4Alloc
+-- ---------------------------------------------------------------------------------------------------------
